@@ -468,5 +468,67 @@ theorem task_best_inBox (hg : Good true p.skel = true) (blo bhi : List Int)
 
 end
 
+/-! ### C02 in full: the reported best *is* the minimum of what the sweeps evaluated -/
+
+section
+variable (p : TaskProg) (lbs ubs : List Int) (o : TaskOracle)
+
+/-- the best agent's (position, fitness) is one of the sweeps' objective calls -/
+def Evald (s : TaskSt) : Prop := (s.best.pos, s.best.fit) ∈ s.evals
+
+theorem evald_execEv (hr : IsRule p.sweep false) (hk : BestKept o) (s : TaskSt) (ev : SEv) (h : Evald s) :
+    Evald (p.execEv lbs ubs o s ev) := by
+  have hb := bestFrom_execEv p lbs ubs o hr hk s.best s ev (Or.inr h)
+  rcases hb with hb | hb
+  · -- the best agent is unchanged and the log only grows
+    unfold Evald
+    rw [hb]
+    cases ev <;> simp only [TaskProg.execEv] <;> first | exact h | exact List.mem_append_left _ h
+  · exact hb
+
+theorem evald_exec (hr : IsRule p.sweep false) (hk : BestKept o) (es : List SEv) (s : TaskSt) (h : Evald s) :
+    Evald (p.exec lbs ubs o s es) := by
+  induction es generalizing s with
+  | nil => exact h
+  | cons e es ih => exact ih _ (evald_execEv p lbs ubs o hr hk s e h)
+
+theorem runSkel_pre' (sk : Skeleton) (N : Nat) : ∃ rest, runSkel sk N = evs sk.pre ++ rest := by
+  induction N with
+  | zero => exact ⟨[], by simp [runSkel]⟩
+  | succ n ih =>
+    obtain ⟨r, hr⟩ := ih
+    exact ⟨r ++ evs sk.body, by simp [runSkel, hr, List.append_assoc]⟩
+
+/-- **C02 in full (generic sweep).**  If the objective stays strictly below the incumbent's sentinel fitness (`FLOAT_MAX`: the
+    excluded point is the recorded finding K6) and the first hook leaves a non-empty population, then at every moment from the
+    first sweep on the reported best is one of the evaluated pairs and its fitness is at most every value any sweep obtained:
+    it is the minimum, attained. -/
+theorem task_best_is_min (hg : Good true p.skel = true) (hr : IsRule p.sweep false) (hk : BestKept o)
+    (pop : List Ag) (best : Ag) (hlt : ∀ x, o.f x < best.fit) (hne : (o.hook 0 (pop, best)).1 ≠ []) (N : Nat) :
+    let s := p.runTask lbs ubs o (TaskSt.start pop best) N
+    (s.best.pos, s.best.fit) ∈ s.evals ∧ ∀ e ∈ s.evals, s.best.fit ≤ e.2 := by
+  refine ⟨?_, (task_best p lbs ubs o false hr hk pop best N).1⟩
+  obtain ⟨hpre, _⟩ := good_pattern true p.skel hg
+  obtain ⟨rest, hrest⟩ := runSkel_pre' p.skel N
+  show Evald (p.runTask lbs ubs o (TaskSt.start pop best) N)
+  unfold TaskProg.runTask
+  rw [hrest, exec_append, hpre]
+  apply evald_exec p lbs ubs o hr hk
+  -- the first sweep takes somebody: the population is not empty and every value is below the sentinel
+  simp only [exec_cons, exec_nil, TaskProg.execEv, TaskSt.start, Evald, List.nil_append]
+  rw [hk.hook]
+  generalize (o.hook 0 (pop, best)).1 = X at hne
+  rcases sweepPop_best_from p.sweep hr lbs ubs o.f X best 0 with h | ⟨a, ha, h1, h2⟩
+  · exfalso
+    obtain ⟨x, xs, rfl⟩ := List.exists_cons_of_ne_nil hne
+    have := (sweepPop_best p.sweep false hr lbs ubs o.f (x :: xs) best 0).2 x List.mem_cons_self
+    rw [h] at this
+    have := hlt x.pos
+    omega
+  · rw [h1, h2]
+    exact List.mem_map.mpr ⟨a, ha, rfl⟩
+
+end
+
 end Task
 end Opy
